@@ -82,8 +82,8 @@ def count_elements(ast, M):
         M.count("elements." + kind)
 
 
-class Reused:
-    """One Parser + one explicitly passed TokenMatcher reused for all documents of a shard, with
+class _OldReused:
+    """(superseded by base.ReusedEnv) One Parser + one explicitly passed TokenMatcher reused for all documents of a shard, with
     state-perturbing documents parsed in between (rejected ones, dialect switches, documents that
     end inside an indented doc string): what an earlier parse left behind must not show."""
 
@@ -108,6 +108,9 @@ class Reused:
             M.hist("reuse.predecessor", name)
 
 
+from .base import ReusedEnv as Reused        # noqa: E402  (one Parser/AstBuilder/IdGenerator + explicit TokenMatcher per shard)
+
+
 def check_doc(R, M, case, prop, reused=None):
     """Parse the rendered document with the real parser under the probes and compare with
     the intent.  prop in {'C03','C04'} selects what is deciding."""
@@ -116,9 +119,7 @@ def check_doc(R, M, case, prop, reused=None):
         M.inconc("generator produced a document whose intended reading is not the grammar's reading: %s" % short(R.text, 200))
         return None
     if reused is not None:
-        reused.perturb(M)
-        o = observe.parse_observed(R.text, parser=reused.parser, matcher=reused.matcher)
-        M.count("parses_on_reused_objects")
+        o = reused.parse(R.text, M)
     else:
         o = observe.parse_observed(R.text)
     deciding = {"C03": {"G4"}, "C04": {"G8"}}[prop]
